@@ -23,6 +23,16 @@ Theorem C07_wrap_lines_lossless : forall line o, utf8_valid line = true -> short
 Proof. exact wrap_lines_correct. Qed.
 Print Assumptions C07_wrap_lines_lossless.
 
+(* Width bound, for every width >= 1: every piece handed to the child has at most WIDTH
+   bytes, or is a single code point ([width_ok] = length <= w, or the scanner counts
+   exactly one code point).  Proved for the repaired wrap_lines (repo commit b62d6b6);
+   the original code violated it, e.g. -w 3 on two 2-byte characters. *)
+Theorem C07_width_bound : forall line o, utf8_valid line = true -> short_line line -> 1 <= w_width o ->
+  exists ps ds, wrap_lines line o = WOk ps ds /\
+    Forall (fun p => width_ok (w_width o) p = true) ps.
+Proof. exact wrap_lines_width. Qed.
+Print Assumptions C07_width_bound.
+
 (* The tool with any child that answers every piece p with one line g p: each output
    line is the child's answers for that line's pieces re-joined with the withheld runs
    ([rejoined]); input and output have the same number of lines. *)
@@ -51,6 +61,15 @@ Example C07_nonvacuous_wrap :
   let o := {| w_width := 3; w_keep := false; w_delims := [183; 32] |} in
   utf8_valid line = true /\ short_line line /\
   wrap_lines line o = WOk [[97; 195; 169]; [226; 130; 172]; [240; 159; 152; 128]; [98; 13]] [[32; 32]; [194; 183]; []; []].
+Proof. vm_compute. repeat split; reflexivity. Qed.
+
+(* the former counter-example: width 3, two 2-byte characters; and a 4-byte character at width 1 *)
+Example C07_nonvacuous_width :
+  wrap_lines [195; 169; 195; 169] {| w_width := 3; w_keep := true; w_delims := [32] |}
+    = WOk [[195; 169]; [195; 169]] [[]; []] /\
+  wrap_lines [97; 240; 159; 152; 128] {| w_width := 1; w_keep := true; w_delims := [] |}
+    = WOk [[97]; [240; 159; 152; 128]] [[]; []] /\
+  width_ok 1 [240; 159; 152; 128] = true /\ width_ok 3 [195; 169; 195; 169] = false.
 Proof. vm_compute. repeat split; reflexivity. Qed.
 
 Example C07_nonvacuous_tool :
